@@ -458,6 +458,14 @@ def expected(stmt, md=None):
     if isinstance(stmt, (Insert, CreateView)): tgt, cols, q = stmt.tgt, stmt.cols, stmt.q
     elif isinstance(stmt, Ctas): tgt, q = stmt.tgt, stmt.q
     elif isinstance(stmt, Bare): q = stmt.q
+    elif isinstance(stmt, Update):
+        # UPDATE tgt SET c = src.col, .. FROM items: each assignment is a select item named by the assigned column, evaluated in the FROM scope
+        tgt = stmt.tgt
+        q = Select(tuple(Item(e, c, True) for c, e in stmt.sets), stmt.frm)
+    elif isinstance(stmt, Merge):
+        # MERGE: the UPDATE SET assignments and the INSERT (cols) VALUES (exprs) pairs, evaluated in the scope of the USING source
+        tgt = stmt.tgt
+        q = Select(tuple(Item(e, c, True) for c, e in tuple(stmt.upd) + tuple(stmt.ins)), (FromGroup(stmt.src),))
     if md and isinstance(stmt, Insert) and not cols and tgt is not None and tkey(tgt) in o.md:
         # INSERT without column list into a known target: its known columns name the positions (when the arity matches)
         first = q
